@@ -249,6 +249,8 @@ FITTED = [  # (name, family for c02 builders, model factory kwargs)
     ("daily_maps", "daily", {"settings": {"season": {"march": "winter"}, "weekday_weekend": {"friday": "weekend"}, "uncertainty_alpha": 0.2}}),
     ("daily_poorfit", "daily", {"settings": {"developer_mode": True, "silent_developer_mode": True, "cvrmse_threshold": 1e-6}}),
     ("billing", "billing", {}),
+    ("daily_fixed_offset", "daily", {}),     # baseline indexed in a fixed UTC offset ("-06:00"), as parsing ISO-8601 text gives
+    ("billing_fixed_offset", "billing", {}),
     ("hourly", "hourly", {"settings": {"seed": 7}}),
     ("hourly_solar", "hourly_solar", {"settings": {"seed": 7}}),
     ("hourly_robust", "hourly", {"settings": {"seed": 7, "scaling_method": "robustscaler"}}),
@@ -274,16 +276,19 @@ def build_fitted(name):
 
         m = CM()
     frame = c02.baseline_frame(fam, 365, seed=0)
+    if name.endswith("_fixed_offset"):
+        frame = frame.tz_localize(None).tz_localize("-06:00")
     if name == "daily_maps":
         frame = ds.daily_frame(start="2021-01-01", days=365, tz=ZONE, wseed=0, seed=0, noise=0.05, weekend_factor=1.5, summer_factor=1.3)
     data = c02.make_baseline(fam, frame)
     return fam, c02.fit(fam, m, data), type(m)
 
 
-def reporting_sets(fam, tier):
+def reporting_sets(fam, tier, zone=None):
     """(name, data object) : inside the fitted range, far colder, far hotter, with NaN temperature, with / without usage"""
     import opendsm.eemeter as em
 
+    zone = zone or ZONE
     out = []
     if fam in ("daily", "billing"):
         n = 120
@@ -294,7 +299,7 @@ def reporting_sets(fam, tier):
         variants["nan_T"] = nan
         for vn, temps in variants.items():
             for usage in (True, False):
-                out.append((f"{vn}:{'u' if usage else 'nou'}", reporting_daily(fam, temps, usage)))
+                out.append((f"{vn}:{'u' if usage else 'nou'}", reporting_daily(fam, temps, usage, zone=zone)))
         return out
     solar = fam == "hourly_solar"
     days = 60 if fam != "caltrack" else 45
@@ -335,7 +340,7 @@ def run_B(case):
     except Exception as exc:
         return {"behaviour": [name, "to_json_raises"], "violations": [{"clause": "to_json_raises", "key": key0, "detail": repr(exc)}]}
     desc0 = describe(model)
-    sets = reporting_sets(fam, case["tier"])
+    sets = reporting_sets(fam, case["tier"], zone="-06:00" if name.endswith("_fixed_offset") else None)
     ref = {}
     for sn, d in sets:
         try:
@@ -360,7 +365,13 @@ def run_B(case):
                 return "raise:" + type(exc).__name__ + ":" + str(exc)[:160]
         if op == "rt_dict":
             try:
-                return ("__replace__", (cls.from_dict(copy.deepcopy(m.to_dict())), "loaded"))
+                d = m.to_dict()
+                before = F.fp(d)
+                cls.from_dict(d)            # a stored dictionary can be read more than once ...
+                loaded = cls.from_dict(d)
+                if F.fp(d) != before:       # ... and reading it does not alter it
+                    return "raise:DocumentModifiedByLoad:from_dict changed the dictionary it was given"
+                return ("__replace__", (loaded, "loaded"))
             except Exception as exc:
                 return "raise:" + type(exc).__name__ + ":" + str(exc)[:160]
         try:
@@ -461,7 +472,7 @@ def run_case(case):
 def cases_B(tier):
     names = [f[0] for f in FITTED]
     if tier == "quick":
-        names = ["daily_current", "daily_legacy", "daily_poorfit", "billing", "hourly", "hourly_solar", "hourly_robust", "hourly_bins", "caltrack"]
+        names = ["daily_current", "daily_legacy", "daily_poorfit", "billing", "daily_fixed_offset", "billing_fixed_offset", "hourly", "hourly_solar", "hourly_robust", "hourly_bins", "caltrack"]
     out = [{"part": "B", "fit": n, "tier": tier, "depth": 3 if tier == "thorough" else 2} for n in names]
     out += [{"part": "R", "fit": f, "tier": tier} for f in (("daily", "billing", "hourly") if tier == "quick" else
                                                                ("daily", "billing", "hourly", "hourly_solar", "caltrack"))]
